@@ -81,7 +81,8 @@ func checkC09(w *World, r *Report) {
 	// "swap! ... installs and returns the result": swap!, reset! and deref reach programs through the binder's
 	// adapter closures, which must hand back what the operation returned
 	r.include("C09.builtin-", "C20.", "what swap!, reset! and deref return to the program is what the operation returned: a completed update is not reported as a failure", checkC20, func(rule string) bool {
-		return rule == "C20.verbatim" || rule == "C20.results"
+		// (and the arguments an update function is given are the ones swap! was given: nil as nil)
+		return rule == "C20.verbatim" || rule == "C20.results" || rule == "C20.nil-arg"
 	})
 	fns := w.pkgFuncs("lib/concurrent")
 	n := pairRule(w, r, e, "C09.pair", fns)
@@ -574,6 +575,47 @@ func checkC10(w *World, r *Report) {
 	r.rule("C10.ctx", "the body runs under a context.WithCancel child of the creator's context and Cancel calls that cancel function; Deref waits on its caller's context")
 	r.rule("C10.pair", "every lock acquired in the future code is released on every return")
 	guardRule(w, r, e, "C10.shared", w.guardRows()[1])
+	// ... and whatever else of a future is written once it is shared (a field assigned outside the literal the
+	// constructor builds it with) is guarded by the same mutex in every function that touches it
+	{
+		known := map[string]bool{}
+		for _, f := range w.guardRows()[1].fields {
+			known[f] = true
+		}
+		late := map[string]bool{}
+		for _, fn := range w.Funcs {
+			if isTestFunc(w, fn) || !inModule(fn) {
+				continue
+			}
+			for _, b := range fn.Blocks {
+				for _, in := range b.Instrs {
+					st, ok := in.(*ssa.Store)
+					if !ok {
+						continue
+					}
+					fa, ok := st.Addr.(*ssa.FieldAddr)
+					if !ok {
+						continue
+					}
+					if pr, name, ok := w.namedStruct(fa.X.Type()); !ok || pr != "lib/concurrent" || name != "Future" {
+						continue
+					}
+					if al, isAl := fa.X.(*ssa.Alloc); isAl && al.Comment == "complit" && al.Parent() == fn {
+						continue // the literal the constructor fills in before anybody else sees the future
+					}
+					if e.freshPtr(fa.X, 0) || freshAtEveryCall(w, e, fa.X) {
+						continue // ... or a function of the package fills in for it, on a future nobody else has seen yet
+					}
+					if fname := fieldName(fa.X.Type(), fa.Field); !known[fname] && fname != w.roles().futureMu {
+						late[fname] = true
+					}
+				}
+			}
+		}
+		for _, fname := range keysOf(late) {
+			guardRule(w, r, e, "C10.shared", guardedField{"lib/concurrent", "Future", []string{fname}, w.roles().futureMu})
+		}
+	}
 	// a future's body starts when the future is made and waits for nothing the futures share: a pool, a slot
 	// counter or a mailbox at package level makes one future's start depend on the others' ends (bodies that wait
 	// for futures not yet started are then never evaluated)
@@ -700,7 +742,7 @@ func checkC10(w *World, r *Report) {
 		}
 		if ex, ok := ctxArg.(*ssa.Extract); ok && ex.Index == 0 {
 			if c, ok := ex.Tuple.(*ssa.Call); ok {
-				if sc := c.Call.StaticCallee(); sc != nil && sc.Pkg != nil && sc.Pkg.Pkg.Path() == "context" && strings.HasPrefix(sc.Name(), "With") {
+				if sc := c.Call.StaticCallee(); sc != nil && sc.Pkg != nil && sc.Pkg.Pkg.Path() == "context" && strings.HasPrefix(sc.Name(), "With") && sc.Name() != "WithoutCancel" {
 					if c.Call.Args[0] == ssa.Value(newFuture.Params[0]) {
 						derived = true
 						cancelFnVal = extractOf(c, 1)
@@ -1353,12 +1395,17 @@ func checkC11(w *World, r *Report) {
 	}
 	capturedStateRule(w, r, e, "C11.captured-state")
 	sharedStateRule(w, r, "C11.package-state")
+	// the positions of the forms of a shared function are shared with the function: every evaluation that fails
+	// there reads them (to print the error); nothing writes into a position it did not make itself
+	r.rule("C11.positions-readonly", "every store into a field of a Position, in the runtime packages, goes to a Position allocated in the same activation: positions reachable from shared forms are only read, so evaluations that fail at the same form do not race on them (shared with C17.position-immutable)")
+	npos := positionWrites(w, r, e, "C11.positions-readonly", func(fn *ssa.Function) bool { return runtimePkg(fnPkgPath(fn)) })
+	r.floor("C11.positions-readonly", "writes to Position fields in the runtime packages", npos, 5)
 	objectWritesRule(w, r, e, "C11.object-writes")
 	tableEscapeRule(w, r, "C11.table-private")
 	// a future bound to a global is read by any number of evaluations: each must get the outcome it gets alone
 	r.include("C11.future-", "C10.", "an evaluation that only reads a shared global future returns what it returns alone: every reader gets the one outcome", checkC10, func(rule string) bool {
 		switch rule {
-		case "C10.redeposit", "C10.deref-waits", "C10.single-outcome", "C10.done-before-deliver", "C10.ctx":
+		case "C10.redeposit", "C10.deref-waits", "C10.single-outcome", "C10.done-before-deliver", "C10.ctx", "C10.readers", "C10.outcome-own":
 			// C10.ctx: the body of a future is stopped by its creator's context and by future-cancel only, so an
 			// evaluation started by a program does not depend on which other evaluation happens to finish first
 			return true
@@ -1434,13 +1481,13 @@ func ctxDerivation(e *Engine, v ssa.Value, seen map[ssa.Value]bool) ([]*ssa.Call
 		return nil, isContext(x.Type())
 	case *ssa.Extract:
 		if c, ok := x.Tuple.(*ssa.Call); ok && x.Index == 0 {
-			if sc := c.Call.StaticCallee(); sc != nil && sc.Pkg != nil && sc.Pkg.Pkg.Path() == "context" && strings.HasPrefix(sc.Name(), "With") {
+			if sc := c.Call.StaticCallee(); sc != nil && sc.Pkg != nil && sc.Pkg.Pkg.Path() == "context" && strings.HasPrefix(sc.Name(), "With") && sc.Name() != "WithoutCancel" {
 				inner, ok := ctxDerivation(e, c.Call.Args[0], seen)
 				return append(inner, c), ok
 			}
 		}
 	case *ssa.Call:
-		if sc := x.Call.StaticCallee(); sc != nil && sc.Pkg != nil && sc.Pkg.Pkg.Path() == "context" && strings.HasPrefix(sc.Name(), "With") {
+		if sc := x.Call.StaticCallee(); sc != nil && sc.Pkg != nil && sc.Pkg.Pkg.Path() == "context" && strings.HasPrefix(sc.Name(), "With") && sc.Name() != "WithoutCancel" {
 			inner, ok := ctxDerivation(e, x.Call.Args[0], seen)
 			return append(inner, x), ok
 		}
